@@ -147,10 +147,11 @@ func (r *vjReplayer) Replay(sub Subscription) error {
 		r.env.add(vjEvent{kind: vjReplay, i: i, m: -2, err: vjErrReplay})
 		panic("verif: replayer panics in Replay")
 	}
-	r.env.add(vjEvent{kind: vjReplay, i: i, m: -1})
 	if outcome == 1 {
+		r.env.add(vjEvent{kind: vjReplay, i: i, m: -1, err: vjErrReplay})
 		return vjErrReplay
 	}
+	r.env.add(vjEvent{kind: vjReplay, i: i, m: -1})
 	// contract: everything stamped after the presented ID that matches, in stamp order
 	if !sub.LastEventID.IsSet() {
 		return nil
@@ -288,10 +289,16 @@ func vjRun(nsub, nmsg, nshut int, cancel bool, clientFaults bool, replayer int, 
 			s.env.add(vjEvent{kind: vjSubReturn, i: i, m: -1, err: err})
 		})
 		if cancel {
-			verifGo(func() {
-				s.env.add(vjEvent{kind: vjCancelReq, i: i, m: -1})
-				s.ctxs[i].cancel()
-			})
+			// Cancellation only matters once Subscribe waits on ctx.Done(): the cancelling
+			// goroutine is started at that moment (a cancellation requested earlier commutes
+			// with everything up to there, and requesting it as late as possible makes the
+			// antecedent "published before the cancellation was requested" as strong as it gets).
+			s.ctxs[i].onDone = func() {
+				verifGo(func() {
+					s.env.add(vjEvent{kind: vjCancelReq, i: i, m: -1})
+					s.ctxs[i].cancel()
+				})
+			}
 		}
 	}
 	if nmsg > 0 {
@@ -428,4 +435,218 @@ func vhC06Joe() {
 func vhC07Joe() {
 	s := vjRun(verifParam("NSUB", 1), verifParam("NMSG", 1), verifParam("NSHUT", 1), verifParam("CANCEL", 1) == 1, verifParam("FAULTS", 0) == 1, verifParam("REPLAYER", 0), false)
 	s.checkC07()
+}
+
+func vjMatches(a, b []string) bool { return vhTopicsIntersect(a, b) }
+
+// base message index of a logged Send (copies carry +100)
+func vjBase(m int) int {
+	if m >= 100 {
+		return m - 100
+	}
+	return m
+}
+
+// ---- C03 / C17: exactly-once, in-order, complete and isolated delivery ----
+// Needs the contract replayer (its Put/Replay calls are the linearisation witness:
+// the order in which Joe accepted messages and registered subscribers).
+func (s *vjScenario) checkDelivery(prefix string) {
+	log := s.env.log
+	// positions
+	putPos := make([]int, s.nmsg)
+	for k := range putPos {
+		putPos[k] = -1
+	}
+	regPos := make([]int, s.nsub)
+	for i := range regPos {
+		regPos[i] = -1
+	}
+	for p, e := range log {
+		if e.kind == vjPut && e.m >= 0 && putPos[e.m] < 0 {
+			putPos[e.m] = p
+		}
+		if e.kind == vjReplay && e.i >= 0 && regPos[e.i] < 0 {
+			regPos[e.i] = p
+		}
+	}
+	for i := 0; i < s.nsub; i++ {
+		cancelPos := s.pos(vjCancelReq, i, -2)
+		errPos, _ := s.firstClientError(i)
+		lastSent := -1 // put position of the last message sent to i
+		for k := 0; k < s.nmsg; k++ {
+			// Send calls for message k to subscriber i
+			n := 0
+			firstSend := -1
+			for p, e := range log {
+				if e.kind == vjSend && e.i == i && vjBase(e.m) == k {
+					n++
+					if firstSend < 0 {
+						firstSend = p
+					}
+				}
+			}
+			verifAssert(n <= 1, prefix+"/no-message-handed-twice-to-a-subscriber")
+			if n > 0 {
+				verifAssert(vjMatches(s.stopics[i], s.mtopics[k]), prefix+"/sent-only-to-subscribers-whose-topics-intersect")
+				if putPos[k] >= 0 {
+					verifAssert(putPos[k] > lastSent, prefix+"/each-subscriber-sees-joes-serialisation-order")
+					lastSent = putPos[k]
+				}
+				if s.copies != nil && putPos[k] >= 0 && log[putPos[k]].err == nil {
+					// the ID-carrying copy returned by Put is what is fanned out (same ID live and replayed)
+					for _, e := range log {
+						if e.kind == vjSend && e.i == i && vjBase(e.m) == k {
+							verifAssert(e.m >= 100, prefix+"/fanned-out-message-is-the-one-returned-by-Put")
+						}
+					}
+				}
+			}
+			// completeness: registered before Joe accepted the message, matching, not yet failed, not yet asked to leave
+			if putPos[k] >= 0 && regPos[i] >= 0 && regPos[i] < putPos[k] && vjMatches(s.stopics[i], s.mtopics[k]) &&
+				(errPos < 0 || errPos > putPos[k]) && (cancelPos < 0 || cancelPos > putPos[k]) && !s.lids[i].IsSet() {
+				replayFailed := false
+				for _, e := range log {
+					if e.kind == vjReplay && e.i == i && e.err != nil {
+						replayFailed = true
+					}
+				}
+				// a failing client earlier in this very fan-out must not matter either (isolation)
+				if !replayFailed {
+					verifAssert(n == 1, prefix+"/every-registered-matching-subscriber-gets-the-message")
+					verifCover(prefix + "/delivery-obligation")
+				}
+			}
+		}
+		// every successful Send is followed by a Flush of the same subscriber before Joe does anything else
+		for p, e := range log {
+			if e.kind == vjSend && e.i == i && e.err == nil && (regPos[i] < 0 || p > regPos[i] || true) {
+				// next Joe-side event
+				q := p + 1
+				for q < len(log) && (log[q].kind == vjPubReturn || log[q].kind == vjCancelReq || log[q].kind == vjSubReturn || log[q].kind == vjShutdownReq || log[q].kind == vjShutdownReturn) {
+					q++
+				}
+				inReplay := false
+				for r := p; r >= 0; r-- {
+					if log[r].kind == vjReplay && log[r].i == i {
+						inReplay = true
+						break
+					}
+					if log[r].kind == vjPut {
+						break
+					}
+				}
+				if !inReplay {
+					verifAssert(q < len(log) && log[q].kind == vjFlush && log[q].i == i, prefix+"/every-Send-is-followed-by-a-Flush")
+				}
+			}
+		}
+	}
+	// one publisher: Joe's serialisation respects its program order
+	last := -1
+	for k := 0; k < s.nmsg; k++ {
+		if putPos[k] >= 0 {
+			verifAssert(putPos[k] > last, prefix+"/publisher-program-order-respected")
+			last = putPos[k]
+		}
+	}
+	// Publish: nil, or the replayer's error, or ErrProviderClosed; a Put error is returned by that Publish
+	for k := 0; k < s.nmsg; k++ {
+		if !s.pubDone[k] {
+			continue
+		}
+		if putPos[k] >= 0 && log[putPos[k]].err != nil && log[putPos[k]].i == -1 {
+			verifAssert(s.pubErr[k] == vjErrPut, prefix+"/Put-error-is-returned-by-that-Publish")
+			verifCover(prefix + "/put-error")
+		}
+		if putPos[k] >= 0 && log[putPos[k]].i == -2 {
+			verifAssert(s.pubErr[k] == nil, prefix+"/replayer-panic-Publish-proceeds-as-without-replayer")
+			verifCover(prefix + "/put-panic")
+		}
+		if s.pubErr[k] == ErrProviderClosed {
+			verifAssert(putPos[k] < 0, prefix+"/ErrProviderClosed-means-not-accepted")
+		}
+	}
+	verifAssert(!s.env.usedAfterPanic, prefix+"/replayer-never-used-after-it-panicked")
+}
+
+func vhC03Joe() {
+	s := vjRun(verifParam("NSUB", 2), verifParam("NMSG", 2), verifParam("NSHUT", 0), verifParam("CANCEL", 0) == 1, verifParam("FAULTS", 0) == 1, 1, false)
+	verifAssert(!verifCrashed(), "C03/no-crash")
+	s.checkDelivery("C03")
+}
+
+func vhC17Joe() {
+	s := vjRun(verifParam("NSUB", 2), verifParam("NMSG", 1), verifParam("NSHUT", 0), verifParam("CANCEL", 0) == 1, true, verifParam("REPLAYER", 2), false)
+	verifAssert(!verifCrashed(), "C17/no-crash")
+	s.checkDelivery("C17")
+	s.checkC06()
+}
+
+// ---- C04: resuming subscribers ----
+func vhC04Joe() {
+	s := vjRun(verifParam("NSUB", 1), verifParam("NMSG", 2), 0, false, false, 1, true)
+	verifAssert(!verifCrashed(), "C04/no-crash")
+	log := s.env.log
+	for i := 0; i < s.nsub; i++ {
+		reg := -1
+		for p, e := range log {
+			if e.kind == vjReplay && e.i == i {
+				reg = p
+			}
+		}
+		if reg < 0 {
+			continue
+		}
+		// the stamp the subscriber presented
+		lidMsg := -1
+		for k := 0; k < s.nmsg; k++ {
+			if s.lids[i].IsSet() && s.copies[k].ID == s.lids[i] {
+				lidMsg = k
+			}
+		}
+		lidPut := -1
+		if lidMsg >= 0 {
+			lidPut = s.pos(vjPut, -1, lidMsg)
+		}
+		// expected: every message put after the presented one (if it was put before the subscription
+		// was processed), else every message put after registration - matching, once, in put order
+		var want []int
+		for p, e := range log {
+			if e.kind != vjPut || e.err != nil {
+				continue
+			}
+			if !vjMatches(s.stopics[i], s.mtopics[e.m]) {
+				continue
+			}
+			after := p > reg
+			if lidPut >= 0 && lidPut < reg {
+				after = p > lidPut
+			}
+			if after {
+				want = append(want, e.m)
+			}
+		}
+		var got []int
+		for _, e := range log {
+			if e.kind == vjSend && e.i == i {
+				got = append(got, vjBase(e.m))
+				verifAssert(e.m >= 100, "C04/event-carries-the-same-ID-live-and-replayed")
+			}
+		}
+		same := len(got) == len(want)
+		if same {
+			for x := range got {
+				if got[x] != want[x] {
+					same = false
+				}
+			}
+		}
+		verifAssert(same, "C04/resumed-subscriber-gets-exactly-the-missed-then-the-live-events-in-order")
+		if lidPut >= 0 && lidPut < reg && len(want) > 0 {
+			verifCover("C04/replayed-something")
+		}
+		if len(got) > 0 {
+			verifCover("C04/delivered")
+		}
+	}
 }
